@@ -222,7 +222,8 @@ def fix_unconventional_class_definitions(source: str) -> str:
 
     {{ClassName}}.{{attr}} = {{value}}
     """
-    template = core.compile_template(template)
+    template = list(core.compile_template(template))
+    template[0] = copy.copy(template[0])  # The compiled template is cached and shared
     template[0].bases = list
     template[0].decorator_list = list
 
